@@ -4,6 +4,9 @@ from __future__ import annotations
 import json
 from fractions import Fraction
 
+import re
+
+from . import c09_compose as C
 from . import c09_routes as R
 from . import c09_util as U
 from .common import add_failure, bump, new_outcome
@@ -19,12 +22,20 @@ TRUSTED = [
     "correspondence check (ordered nested form, tip order, distance dict compared exactly on dyadic lengths)",
     "Spec/PhyloSplits.lean (named weighted splits; dist = sum of separating edge lengths)",
     "independent Python oracle harness/c09_util.py (path lengths, bipartitions, brute-force assignment)",
+    "hand-written models Model/PhyloNewickStr.lean (writer escaping, regex split, token loop, parse_string reading, "
+    "pySpace = str.isspace, the name class roundTrips) and Model/PhyloNames.lean (TreeBuilder._unique_name, make_tree's "
+    "root renaming), tied each run: pySpace on every code point, escapeName / nameRoundTrip / roundTrips on adversarial "
+    "names (the predicate must be exact on the real code), assignNames / makeTreeNames on label lists with repeats",
+    "harness/c09_compose.py: independent newick writer, name generators, composition plans",
 ]
 ASSUMPTIONS = [
-    "node names are distinct, non-empty, have >= 2 characters, are not of the form edge*/root* and do not look like numbers",
+    "chain / route checks: node names are distinct, non-empty, have >= 2 characters, are not of the form edge*/root* and do not look like numbers; "
+    "the composition check (c09_compose) drops all of that: any non-empty printable names (quotes, doubled quotes, blanks at the ends, "
+    "underscores, brackets, Unicode, number-like, equal to generated names edge.N / root / x.2) and repeated labels",
     "branch lengths in the real-code check are positive dyadic rationals k/64 (float sums exact); the model tie also uses missing and zero lengths",
     "'leaves its argument unmodified' is checked on the implementation by deep snapshots (name, name_loaded, params, structure), it is not a theorem of the value model",
-    "label quoting/escaping and the regular-expression tokeniser are exercised (real tokeniser on real writer output == model token list), not modelled",
+    "underscore_unmunge=True is taken as THE newick round trip for names with blanks (make_tree's default False returns them with underscores, a documented option)",
+    "write()/load_tree() is checked with the encoding cogent3 guesses (known finding C09-load-tree-encoding-guess for non-ASCII names)",
     "lin_rajan_moret / matching_cluster (scipy linear_sum_assignment) are exercised against an exact assignment optimum (subset DP, <= 12 clusters), not modelled",
     "XML round trip only with names free of newick/XML metacharacters and blanks; JSON routes only with names free of newick metacharacters (known finding C09-json-unescaped-names)",
 ]
@@ -169,7 +180,9 @@ def correspondence(ctx):
         "midpoint/2-tip-and-3-tip subtrees, then seeded random rooted/unrooted bi/multifurcating trees (3-25 tips, dyadic, "
         "missing and zero lengths, quoted-character names) x chains of depth 1-4; compared: ordered nested form "
         "(loaded names, lengths, child order), tip order, the whole get_distances dict, error class; plus newick "
-        "token streams / parser (valid and malformed) and rf/rrf/urf tree distances.  non-trivial = distinct "
+        "token streams / parser (valid and malformed) and rf/rrf/urf tree distances; name models: pySpace vs str.isspace on all code points, "
+        "escapeName / nameRoundTrip / roundTrips vs get_newick + parse_string on ~1500 adversarial names (any characters), assignNames / "
+        "makeTreeNames vs TreeBuilder._unique_name / make_tree on label lists with repeats.  non-trivial = distinct "
         "(tree, chain) whose last step changes the ordered nested form or raises"
     )
     rng = ctx.subrng("corr")
@@ -278,6 +291,7 @@ def correspondence(ctx):
     _corr_newick(ctx, out, rng, small)
     _corr_treedist(ctx, out, rng, small)
     _corr_newick_chars(ctx, out, rng, small)
+    C.corr_names(ctx, out, ctx.subrng("corr_names"), add_failure)
     return out
 
 
@@ -753,6 +767,13 @@ def spec_check(ctx, budget):
         "root-becomes-unary and random subsets; copy/deepcopy/copy_topology, bifurcating/multifurcating/unrooted, LCA queries, "
         "edge vector, tip_to_tip_distances, max distances, set_tip_distances, scale_branch_lengths, get_newick in all 16 flag "
         "combinations read back by make_tree(underscore_unmunge=True/False), write/load_tree for .nwk/.tree/.json/.xml.  "
+        "COMPOSITIONS (c09_compose): every transformation (rooted_at, rooted_with_tip, root_at_midpoint, unrooted, unrooted_deepcopy, "
+        "bifurcating +name_unnamed, multifurcating, prune, get_sub_tree, sorted, copy, deepcopy) and random pairs of them, followed by EVERY "
+        "serialisation round trip (get_newick x with_distances x escape_name x with_node_names x semicolon -> make_tree, to_json / to_rich_dict -> "
+        "deserialise_object, write -> load_tree for .nwk/.tree/.json/.xml/format=json), trees built through make_tree on an independent writer's "
+        "text or through TreeBuilder, one adversarial name class per tree; oracle by tip names: tips, bipartitions, exact path lengths, node names "
+        "stay pairwise distinct; label lists with repeats / generated-name collisions through make_tree and load_tree (names pairwise distinct, "
+        "shape and lengths kept, name = label + numeric suffix); 160 small trees whose names are all adversarial through the newick round trips.  "
         "non-trivial = distinct (tree, chain/route) whose result differs from the input"
     )
     rng = ctx.subrng(f"spec{budget}")
@@ -827,6 +848,7 @@ def spec_check(ctx, budget):
     R.spec_prune_routes(ctx, out, rng, small, budget, _fail)
     R.spec_queries_io(ctx, out, rng, small, budget, _fail)
     R.spec_nonunique_internal(ctx, out, rng, small, budget, _fail)
+    C.spec_compositions(ctx, out, ctx.subrng(f"compose{budget}"), small, budget, _fail)
     return out
 
 
@@ -847,12 +869,28 @@ def _fixed_witnesses():
 # findings
 # --------------------------------------------------------------------------
 def match_finding(f, k):
-    """signatures already carry the narrow class (op, manifestation, cause class)"""
-    return f.get("sig") in k.get("sigs", [])
+    """signatures already carry the narrow class (op, manifestation, cause class); the composition check
+    has one signature per (transformation chain, serialisation route, name class), so a finding may
+    describe its class of signatures by full-match regular expressions (`sig_regex`)"""
+    sig = f.get("sig") or ""
+    if sig in k.get("sigs", []):
+        return True
+    return any(re.fullmatch(p, sig) for p in k.get("sig_regex", []))
 
 
 def _replay_input(inp):
     out = new_outcome()
+    if inp.get("compose") or inp.get("labels") or inp.get("names"):
+        import tempfile
+        from pathlib import Path
+
+        with tempfile.TemporaryDirectory(prefix="verif_C09_replay_") as d:
+            C.replay_input(out, _fail, inp, Path(d))
+        want = inp.get("sig")
+        for f in out["failures"]:
+            if want is None or f["sig"] == want:
+                return f
+        return None
     if "a" in inp or "ops" not in inp:
         return _replay_route(inp)
     t = U.unfrac_json(inp["tree"])
